@@ -276,9 +276,15 @@ func earlierResults() string {
 
 func showMsg(m *ast.DataMessage) string {
 	w := map[string]int{"false": 0, "true": 1, "optional": 2}[m.WaitBit()]
+	// what SystemBytes() returns is the caller's: read it, then overwrite it
+	sb := m.SystemBytes()
+	sys := hx(sb)
+	for i := range sb {
+		sb[i] ^= 0x5A
+	}
 	return fmt.Sprintf("name=%s s=%d f=%d w=%d dir=%s sid=%d sys=%s hdr=%s str=%s vars=%s bytes=%s",
 		hxs(m.Name()), m.StreamCode(), m.FunctionCode(), w, hxs(m.Direction()), m.SessionID(),
-		hx(keep(m.SystemBytes())), hxs(m.Header()), hxs(m.String()), hxList(m.Variables()), hx(keep(m.ToBytes()))) + earlierResults()
+		sys, hxs(m.Header()), hxs(m.String()), hxList(m.Variables()), hx(keep(m.ToBytes()))) + earlierResults()
 }
 
 // implItem builds n and renders it, mapping any panic to PANIC.
